@@ -596,6 +596,22 @@ impl FieldType for *const u8 {
     }
 }
 
+/// A reference that is not `Copy` (the referents are leaked: a few bytes per value).
+impl FieldType for &'static mut u32 {
+    fn make(seed: u64) -> Self {
+        Box::leak(Box::new(mix(seed) as u32))
+    }
+    fn digest(&self) -> u64 {
+        **self as u64
+    }
+    fn expect(seed: u64) -> u64 {
+        (mix(seed) as u32) as u64
+    }
+    fn mutate(&mut self, seed: u64) {
+        **self = mix(seed) as u32;
+    }
+}
+
 impl FieldType for Box<dyn Fn(u32) -> u32 + Send + Sync> {
     fn make(seed: u64) -> Self {
         let k = mix(seed) as u32;
@@ -788,7 +804,7 @@ mod tests {
         law::<()>(); law::<[u8; 3]>(); law::<[u16; 3]>(); law::<[u32; 3]>(); law::<[u64; 3]>(); law::<[u64; 0]>(); law::<[u8; 5]>();
         law::<(u8, u32)>(); law::<A16>(); law::<A32>(); law::<Z16>(); law::<String>(); law::<Vec<u32>>(); law::<Box<str>>();
         law::<Option<String>>(); law::<[String; 2]>(); law::<Tok8>(); law::<Tok4>(); law::<Tok12>(); law::<Tok16>();
-        law::<TokBox>(); law::<Tok3>(); law::<TokZ>(); law::<BigTok>(); law::<Vec<Tok8>>(); law::<[u64; 12]>(); law::<A64>(); law::<Wide320>(); law::<HugeTok>(); law::<Tok256>(); law::<A128>(); law::<f64>(); law::<fn(u32) -> u32>(); law::<*const u8>(); law::<Box<dyn Fn(u32) -> u32 + Send + Sync>>(); law::<string::String<8>>();
+        law::<TokBox>(); law::<Tok3>(); law::<TokZ>(); law::<BigTok>(); law::<Vec<Tok8>>(); law::<[u64; 12]>(); law::<A64>(); law::<Wide320>(); law::<HugeTok>(); law::<Tok256>(); law::<A128>(); law::<&'static mut u32>(); law::<f64>(); law::<fn(u32) -> u32>(); law::<*const u8>(); law::<Box<dyn Fn(u32) -> u32 + Send + Sync>>(); law::<string::String<8>>();
         assert!(crate::ledger_live().is_empty());
         assert_eq!(crate::zst_live(), 0);
         assert!(crate::ledger_take_errors().is_empty());
